@@ -132,6 +132,12 @@ CHECKS = {
              "be the row labelled names[k], indices zero-based, omitted sheets None/default; 25 single-fault corruptions must raise ValueError; prime-valued "
              "mode shapes identify every mapped cell; quiver segments and displaced points are read back from Agg figures.",
         ref="3/C19"),
+    "C20": dict(
+        technique="runtime monitoring: artist monitor - data of the Line2D / PathCollection artists on the returned Agg axes compared with the tables",
+        text="Exploration: stab_plot, cluster_plot and CMIF_plot are called on random non-square tables (any NaN pattern, labels 0/1, step 1..3, freqlim, covariance) and "
+             "through the plot methods of real SSIcov / pLSCF / FDD runs; stable markers, unstable markers and singular-value curves are read back from the artists "
+             "and compared as multisets with the tables; the ordinate of a stable marker is fed back to mpe(order=.) and must return that pole.",
+        ref="3/C20"),
 }
 
 PENDING_REASON = "check not built yet in this session (work in progress; the design in DESIGN.md section 3 applies)"
